@@ -677,6 +677,10 @@ def c14(ctx):
     # B: recorded concurrent histories, linearization points searched by TLC; race detector on
     r1, s1 = conc_histories(ctx, "db", 2500 if th else 250, race=True, parts=16 if th else 8)
     r2, s2 = conc_histories(ctx, "http", 1500 if th else 120, race=True, parts=16 if th else 8)
+    # a listing is one state: one client changes the two shared names in turn (each call complete before the next), the others
+    # list, with many other secrets sorting between the two names
+    r3, s3 = conc_histories(ctx, "db", 1200 if th else 150, race=True, parts=16 if th else 8, opmix="list")
+    s1 = {k: s1[k] + s3[k] for k in ("states", "accepted", "histories", "rejected")}
     cov = {"states": run.distinct + s1["states"] + s2["states"], "transitions": run.generated,
            "traces_validated_against_impl": s1["accepted"] + s2["accepted"],
            "samples": (r1.get("samples") or [])[:2] + (r2.get("samples") or [])[:1],
